@@ -127,9 +127,9 @@ PROPS = {
                  "time, user-function argument, evicted-callback ledger, Items/Range as sets, Count/Size, DefaultExpiration() must be deeply equal. evaluations = cases; non-trivial = a call "
                  "touched an expired-uncleaned key, or a callback fired, or a bulk insert crossed both twins' grow thresholds; distinct by hash of (constructor variant, calls)."),
     "C14": plain([npart("race", "^TestC14$", {"shards": 8, "checks": 1, "timeout": 900, "env": {"VERIF_C14_PROGRAMS": 18}},
-                        {"shards": 8, "checks": 1, "timeout": 3 * 3600, "env": {"VERIF_C14_PROGRAMS": 600}}),
+                        {"shards": 8, "checks": 1, "timeout": 3 * 3600, "env": {"VERIF_C14_PROGRAMS": 2500}}),
                   npart("long", "^TestC14Long$", {"shards": 4, "checks": 1, "timeout": 900, "env": {"VERIF_C14_LONG": 8}},
-                        {"shards": 8, "checks": 1, "timeout": 3 * 3600, "env": {"VERIF_C14_LONG": 300}})],
+                        {"shards": 8, "checks": 1, "timeout": 3 * 3600, "env": {"VERIF_C14_LONG": 800}})],
                  "Cases are generated parallel programs (rapid Custom generator harvested with Example(seed): container in {Map, MapOf, Cache, CacheOf}, profile in {write-heavy, "
                  "read-heavy, range-under-write, settings churn (SetDefaultExpiration/SetEvictedCallback/DeleteExpired/Items), clear/resize churn over 300-4000 keys, janitor on at 1 ms, big tables of 12000-30000 keys}, "
                  "2-64 goroutines x 50-2000 calls, key range 1-400, per-goroutine op streams from the program's seed), each executed natively as its own Go subtest in a binary built "
@@ -138,7 +138,7 @@ PROPS = {
                  "<= 400 with writers in every profile; distinct by hash of the program. Part `long`: 2-16 goroutines x 200-3000 calls on DISJOINT key sets (fill/churn/drain) natively under -race; each goroutine's calls must agree exactly with its own sequential reference model and the quiescent Size with the point lookups — lost updates and stale publications on real threads, independent of the scheduler used elsewhere.", race=True,
                  assumptions=["OS-scheduled: not reproducible by seed; absence of race reports is not absence of races."]),
     "C15": plain([npart("janitor", "^TestC15$", {"shards": 4, "checks": 1, "timeout": 900, "env": {"VERIF_C15_CONFIGS": 16}},
-                        {"shards": 4, "checks": 1, "timeout": 3 * 3600, "env": {"VERIF_C15_CONFIGS": 400}})],
+                        {"shards": 4, "checks": 1, "timeout": 3 * 3600, "env": {"VERIF_C15_CONFIGS": 800}})],
                  "Cases are generated configurations (constructor variant x Cache/CacheOf x cleanup interval in {-5,0,2,3,5,10,20} ms x 1-60 caches x 0-50 entries with 1 ms TTL x 0-50 "
                  "never-expiring entries x callback yes/no x 1-6 waves of further expiring entries stored either the moment a janitor pass is seen at work (first removal observed: mid-sweep) or after a pause of 0.3-15 ms x 0/50000/150000 never-expiring ballast entries that stretch every pass to milliseconds) run in real time. Oracle: interval > 0: with no user call on the keys Count() drops to the never-expiring population within "
                  "max(200 intervals, 5 s) and the callback ledger holds every expired key exactly once and nothing else; interval <= 0: construction starts no goroutine, Count() is "
